@@ -641,6 +641,7 @@ def merge_bams_replay(inputs, clause):
     try:
         header = pysam.AlignmentHeader.from_dict({'HD': {'VN': '1.6', 'SO': 'coordinate'}, 'SQ': [{'SN': 'chr1', 'LN': 1000}]})
         contents = [['placed1', 'placed2'], ['*nocoord1', '*nocoord2'], []][:max(n_parts, 1)]
+        contents += [['extra%d' % i] for i in range(3, n_parts)]      # as many parts as the counter-model has
         paths, names = [], []
         for i, recs in enumerate(contents):
             p = os.path.join(d, 'part%d.bam' % i)
